@@ -56,6 +56,7 @@ var Table = map[string]Meta{
 	"C14": {ID: "C14", Level: "exploration", HangIsViolation: true, Parts: []Part{
 		{Name: "sio", Race: true, BQ: 1, BT: 1, Parallel: 1, HardS: 1500},
 		{Name: "mcrew", Race: true, InPkg: "cmd/mcrew", BQ: 1, BT: 1, Parallel: 1, HardS: 1500},
+		{Name: "mdb", InPkg: "cmd/mdb", BQ: 1, BT: 1, Parallel: 1, HardS: 1500},
 	}},
 	"C15": one("C15", "fault_enumeration", false, 1500),
 	"C16": {ID: "C16", Level: "fault_enumeration", HangIsViolation: true, Parts: []Part{
